@@ -356,3 +356,113 @@ def str_eq_guards(prog, fn):
             for lit in lits:
                 out.append((b, lit, true_bb, false_bb))
     return out
+
+
+# ------------------------------------------------------------------ guards returning Option / Result
+def ok_target_of_call(fn, gb):
+    """block entered only when the Option/Result returned by the call in block `gb` is Some/Ok
+    (through `?` or a direct match on it); None if the shape is not recognised"""
+    t = fn.term(gb)
+    cur = t.get("t")
+    res = t["dest"]["l"]
+    for _ in range(5):
+        if cur is None:
+            return None
+        tt = fn.term(cur)
+        if tt["k"] == "call" and is_try_branch(callee_of(tt)) and op_local(tt["args"][0]) == res:
+            res = tt["dest"]["l"]
+            cur = tt.get("t")
+            continue
+        if tt["k"] == "switch":
+            sw = switch_on_discr_of_local(fn, cur)
+            if sw and place_is_local(sw[0]) and sw[0]["l"] == res:
+                tg = {v: x for v, x in tt["targets"]}
+                if sw[1] == "core::ops::control_flow::ControlFlow":
+                    return tg.get(0)
+                if sw[1] == "core::option::Option":
+                    return tg.get(1, tt["otherwise"] if 0 in tg else None)
+                if sw[1] == "core::result::Result":
+                    return tg.get(0, tt["otherwise"] if 1 in tg else None)
+            return None
+        if tt["k"] == "goto":
+            cur = tt["t"]
+            continue
+        return None
+    return None
+
+
+def promoted_expr(prog, op):
+    """expression tree of the value a promoted / const operand denotes (its body's return value)"""
+    if op.get("k") != "const" or "uneval" not in op:
+        return None
+    nm = op["uneval"]
+    if op.get("promoted") is not None:
+        nm = "%s::promoted[%d]" % (nm, op["promoted"])
+    f = prog.fns.get(nm)
+    if f is None:
+        return None
+    for b in f.exits() or range(len(f.blocks)):
+        pass
+    # _0 = &_1 ; _1 = <value>
+    e = f.local_expr(0, 10)
+    while e and e[0] == "ref":
+        e = e[1]
+    return e
+
+
+def operand_value_expr(prog, fn, op, depth=6):
+    """like fn.expr but looks through references into promoteds"""
+    e = fn.expr(op, depth)
+    return resolve_promoteds(prog, e)
+
+
+def resolve_promoteds(prog, e):
+    if not isinstance(e, tuple) or not e:
+        return e
+    if e[0] == "uneval":
+        nm = e[1]
+        if e[2] is not None:
+            nm = "%s::promoted[%d]" % (nm, e[2])
+        f = prog.fns.get(nm)
+        if f is not None:
+            v = f.local_expr(0, 10)
+            while v and v[0] == "ref":
+                v = v[1]
+            return resolve_promoteds(prog, v)
+        return e
+    out = []
+    for x in e:
+        if isinstance(x, tuple) and x and isinstance(x[0], str):
+            out.append(resolve_promoteds(prog, x))
+        elif isinstance(x, tuple):
+            out.append(tuple(resolve_promoteds(prog, y) if isinstance(y, tuple) else y for y in x))
+        else:
+            out.append(x)
+    return tuple(out)
+
+
+def has_cycle(fn, blocks):
+    """is there a CFG cycle using only `blocks`?"""
+    blocks = set(blocks)
+    color = {}
+    sm = fn.succ_map()
+    for root in blocks:
+        if root in color:
+            continue
+        stack = [(root, iter([s for s in sm[root] if s in blocks]))]
+        color[root] = 1
+        while stack:
+            node, it = stack[-1]
+            adv = False
+            for s in it:
+                if color.get(s) == 1:
+                    return (node, s)
+                if s not in color:
+                    color[s] = 1
+                    stack.append((s, iter([x for x in sm[s] if x in blocks])))
+                    adv = True
+                    break
+            if not adv:
+                color[node] = 2
+                stack.pop()
+    return None
